@@ -36,7 +36,8 @@ Inductive sstep : session -> slabel -> session -> Prop :=
 | SS_publish s live r : sstep s LOther (fst (publish_middle s live r))
 | SS_subscribe s t ps : sstep s LOther (fst (subscribe_middle s t ps))
 | SS_unsubscribe s t ps : sstep s LOther (fst (unsubscribe_middle s t ps))
-| SS_rt_timers s np pt : sstep s LOther (set_rt s (rt_with_timers (s_rt s) np pt))
+| SS_timers_cleared s : sstep s LOther (set_rt s (rt_with_timers (s_rt s) None None))
+| SS_activity s now : sstep s LOther (set_rt s (note_outbound_activity (s_rt s) now))
 | SS_reset_transport s : sstep s LOther (set_rt s (reset_transport (s_rt s)))
 | SS_arm_replay s : sstep s LOther (set_ob s (arm_replay (s_ob s)))
 | SS_compact s : sstep s LOther (set_ob s (compact (s_ob s)))
